@@ -176,9 +176,20 @@ def source(rel):
 
 
 # --------------------------------------------------------------------------- rewrites
+REMOVAL_IS_JUDGED = set()
+
+
 class Counter(dict):
+    """rule applications of one unit; while a function / arm is being extracted (`owner` set) they are also kept per function: the SHAPE of the function as the
+    extraction rules saw it (which modelling rewrites applied, how often) - compared with a committed reference by the runner"""
+    owner = None
+
     def add(self, k, n=1):
         self[k] = self.get(k, 0) + n
+        if self.owner is not None:
+            if not hasattr(self, "per_owner"): self.per_owner = {}
+            d = self.per_owner.setdefault(self.owner, {})
+            d[k] = d.get(k, 0) + n
 
 
 def _norm_ws(s):
@@ -879,6 +890,17 @@ class Unit:
 
     # ---- one arm of a `match request.clone() { Request::V {..} => <expr>, ... }` dispatcher, as a function (rule R10)
     def _do_arm(self, rel, fn_name, variant, opts, block):
+        self.counts.owner = "arm:" + variant
+        n_before = len(self.functions)
+        try:
+            return self._do_arm_inner(rel, fn_name, variant, opts, block)
+        finally:
+            self.counts.owner = None
+            po = getattr(self.counts, "per_owner", {})
+            if len(self.functions) > n_before and ("arm:" + variant) in po:
+                po[self.functions[-1]["path"]] = po.pop("arm:" + variant)   # filed under the name of the generated function (arm_x / op_x)
+
+    def _do_arm_inner(self, rel, fn_name, variant, opts, block):
         """R10: the arm `Request::<variant> { bindings } => <expr>` of fn <fn_name> becomes
               fn arm_<variant><F: Fn..>(bindings.., dbs: &Arc<Databases>, client: &Client, opp: &F) -> (r: Response) { <expr> }
         where the closure literal handed to the guard (argument number `closure=N` of the guard call) is replaced by the
@@ -1143,6 +1165,13 @@ class Unit:
 
     # ---- functions
     def _do_fn(self, rel, path, opts, block):
+        self.counts.owner = path
+        try:
+            return self._do_fn_inner(rel, path, opts, block)
+        finally:
+            self.counts.owner = None
+
+    def _do_fn_inner(self, rel, path, opts, block):
         s = source(rel)
         if "::" in path:
             owner, name = path.rsplit("::", 1)
@@ -1559,9 +1588,12 @@ def _depth_between(toks, off, idx):
 
 
 def _parse_rewrite(ln, path, i):
-    m = re.match(r"//@(unit-rewrite|rewrite|sig-rewrite|pre-rewrite)\s+`(.*?)`\s*=>\s*`(.*?)`\s*(x(\d+|\*))?\s*$", ln)
+    m = re.match(r"//@(unit-rewrite|rewrite|sig-rewrite|pre-rewrite)\s+`(.*?)`\s*=>\s*`(.*?)`\s*(x(\d+|\*))?\s*(removal-is-judged)?\s*$", ln)
     if not m:
         raise AnchorLost("%s:%d: bad rewrite directive" % (path, i + 1))
+    if m.group(6):
+        # fewer sites of this construct than on the reference tree is a change of the code to be judged (e.g. a sleep that was taken out), not a lost model
+        REMOVAL_IS_JUDGED.add(m.group(2))
     where = {"unit-rewrite": "unit", "rewrite": "fn", "sig-rewrite": "sig", "pre-rewrite": "pre"}[m.group(1)]
     cnt = m.group(5)
     if cnt == "*":
@@ -1590,6 +1622,8 @@ def generate(vc_path, prelude_path, out_path):
                 for pth in paths:
                     if pth != f["path"]: calls.add(pth)
         f["calls"] = sorted(calls)
+        # text-formatting macros no rule gave a meaning to (Verus takes them as "any string"): the runner does not attribute a failing clause of such a function to the property
+        f["unmodelled"] = sorted(set(re.findall(r"(?<![A-Za-z0-9_])(format|format_args|write|writeln)!\s*\(", b)))
     prelude = open(prelude_path, encoding="utf-8").read()
     n_pre = prelude.count("\n")
     text = prelude + body
